@@ -256,3 +256,57 @@ Definition status_mon_case := (list string * list pinfo * Z)%type.
 Definition mkstat (n : list string) (i : list pinfo) (z : Z) : status_mon_case := (n, i, z).
 Definition status_monitor_ok (c : status_mon_case) : bool :=
   let '(names, infos, status) := c in status =? spec_status_exit infos names.
+
+(* --------------------------------------------------------------- tail / maintail *)
+(* `tail [-N|-f] name [stdout|stderr]` and `maintail [-N|-f]`, given by their meaning
+   (what to read, how many bytes: None = follow, Some n = the last n bytes, n = 0 the
+   whole log) rather than by the command line, against the answer x to the read call *)
+Inductive tail_what := TailProc (name : string) (stderr : bool) | TailMain.
+
+Definition tail_call (w : tail_what) (n : Z) : call :=
+  match w with
+  | TailProc name se => (if se then "readProcessStderrLog" else "readProcessStdoutLog", [AS name; AZ (- n); AZ 0])
+  | TailMain => ("readLog", [AZ (- n); AZ 0])
+  end.
+Definition tail_path (w : tail_what) : string :=
+  match w with
+  | TailProc name se => "/logtail/" ++ name ++ "/" ++ (if se then "stderr" else "stdout")
+  | TailMain => "/mainlogtail"
+  end.
+Definition tail_fault_line (w : tail_what) (c : Z) : option string :=
+  let nm := match w with TailProc name _ => name | TailMain => "supervisord" end in
+  if c =? F_NO_FILE then Some (nm ++ ": ERROR (no log file)")
+  else if c =? F_FAILED then Some (nm ++ ": ERROR (unknown error reading log)")
+  else match w with
+       | TailProc _ _ => if c =? F_BAD_NAME then Some (nm ++ ": ERROR (no such process name)") else None
+       | TailMain => None
+       end.
+
+Definition spec_tail (w : tail_what) (nbytes : option Z) (x : resp) : list line * Z * list call :=
+  let gv : call := ("getVersion", []) in
+  match nbytes with
+  | None => ([LText "==> Press Ctrl-C to exit <=="], 0, [gv; ("_http_get", [AS (tail_path w)])])
+  | Some n =>
+    let cl := [gv; tail_call w n] in
+    match x with
+    | RVal (VStr o) => ([LText o], 0, cl)
+    | RVal _ => ([], 0, cl)
+    | RFault c fs =>
+      match tail_fault_line w c with
+      | Some t => ([LText t], 1, cl)
+      | None => ([LErr "xmlrpc.client.Fault" (exn_str (XFault c fs))], 1, cl)
+      end
+    | RSock e cls tx => ([LErr cls (exn_str (XSock e cls tx))], 1, cl)
+    | RProto c u m =>
+      if c =? 401 then ([LText "Server requires authentication"], 1, cl)
+      else ([LErr "xmlrpc.client.ProtocolError" (exn_str (XProto c u m))], 1, cl)
+    end
+  end.
+
+Definition tail_mon_case := (tail_what * option Z * resp * list line * Z * list call)%type.
+Definition mktail (w : tail_what) (n : option Z) (x : resp) (l : list line) (z : Z) (c : list call) : tail_mon_case :=
+  (w, n, x, l, z, c).
+Definition tail_monitor_ok (c : tail_mon_case) : bool :=
+  let '(w, n, x, ls, status, cs) := c in
+  let '(el, es, ec) := spec_tail w n x in
+  list_eqb' line_eqb el ls && (es =? status) && list_eqb' call_eqb ec cs.
